@@ -30,7 +30,7 @@ for pid in all_ids:
 hooks = json.loads((V / "tools/hooks.json").read_text())
 man = {
     "version": 1,
-    "setup_cmd": "cd lean && lake build XdslModel XdslProofs driver",
+    "setup_cmd": "./tools/setup.sh",
     "hooks": hooks,
     "engines": [{"name": "lean4-proof+correspondence", "path": "lean/ + harness/", "serves_properties": ids,
                  "kind_free_text": "Lean 4 models and theorems (lean/XdslModel, lean/XdslProofs), tied to /repo on every run by a Python-AST→Lean translator (pure integer kernels) and by differential correspondence through the native line-protocol driver (lean/Driver.lean)"}],
